@@ -1597,7 +1597,12 @@ int asn1_time_from_str(int utc_time, time_t *timestamp, const char *str)
 	{
 		day += days_per_year[is_leap_year(year)];
 	}
-	while (month-- > 1) {
+	while (month-- > 1)
+	VERIF_LOOP_ASSIGNS(month, day)
+	VERIF_LOOP_INVARIANT(1 <= month && month <= VERIF_LOOP_ENTRY(month) && VERIF_LOOP_ENTRY(month) <= 12)
+	VERIF_LOOP_INVARIANT(day == VERIF_LOOP_ENTRY(day) + (VERIF_DAYS_BEFORE_MONTH(VERIF_LOOP_ENTRY(month), days_per_month[2] - 28) - VERIF_DAYS_BEFORE_MONTH(month, days_per_month[2] - 28)))
+	VERIF_LOOP_DECREASES(month)
+	{
 		day += days_per_month[month];
 	}
 	*timestamp = (time_t)day * 86400 + hour * 3600 + minute * 60 + second;
@@ -1645,7 +1650,12 @@ int asn1_time_to_str(int utc_time, time_t timestamp, char *str)
 	if (is_leap_year(year)) {
 		days_per_month[2] = 29;
 	}
-	for (month = 1; month <= 12; month++) {
+	for (month = 1; month <= 12; month++)
+	VERIF_LOOP_ASSIGNS(month, day)
+	VERIF_LOOP_INVARIANT(1 <= month && month <= 13 && day >= 1)
+	VERIF_LOOP_INVARIANT(day == VERIF_LOOP_ENTRY(day) - VERIF_DAYS_BEFORE_MONTH(month, days_per_month[2] - 28))
+	VERIF_LOOP_DECREASES(13 - month)
+	{
 		if (day <= days_per_month[month]) {
 			break;
 		}
